@@ -250,6 +250,11 @@ func execC20(c Case) string {
 				default:
 					f.Add(c20Item(seed, 5, j))
 					f.Matches(c20Item(seed, 5, j))
+					if j%3 == 0 {
+						// re-loading the message that is loaded (a documented-safe no-op) while the scan runs
+						f.Reload(f.MsgFilterLoad())
+						f.IsLoaded()
+					}
 				}
 			}
 		}()
